@@ -83,10 +83,16 @@ Fixpoint visible_idents (known : str -> bool) (own : str) (t : rtype) : list str
   | RPrim _ => []
   end.
 
+(* the types whose identifiers are looked up.  An algebraic enum is walked variant by variant: the
+   payload type of a tuple variant, the field types of a struct variant (since the repair of
+   get_enum_dependencies; before it the enum pushed its own name first, which made the cycle cut of
+   toposort_impl drop the whole row, and struct-variant fields were skipped).  RustEnum::Unit is not
+   walked at all (its variants carry no types when they come from the parser). *)
 Definition visible_types (it : ritem) : list rtype :=
   match it with
   | ItStruct s => map fty (sfields s)
-  | ItEnum _ => []            (* algebraic enums push their own name first: the cycle cut drops the rest *)
+  | ItEnum (EUnit _) => []
+  | ItEnum (EAlgebraic _ _ sh) => flat_map variant_types (evariants sh)
   | ItAlias a => [atype a]
   | ItConst c => [ctype c]
   end.
@@ -115,15 +121,8 @@ Fixpoint has_array_slice (t : rtype) : bool :=
 
 (* classification of the first declarative edge the collectors do not record *)
 Definition edge_class (a b : ritem) : option string :=
-  match a with
-  | ItEnum (EAlgebraic _ _ sh) =>
-    if existsb (fun v => match v with VAnon _ _ => true | _ => false end) (evariants sh)
-       && negb (existsb (fun n => mem_str n (flat_map type_idents (flat_map (fun v => match v with VTuple t _ => [t] | _ => [] end) (evariants sh)))) (defined_names b))
-    then cls "C11-variant-fields" else cls "C11-enum-self-edge"
-  | _ =>
-    if negb (mem_str (original (item_id b)) (mentions a)) then cls "C11-renamed"
-    else cls "C11-generic-arg-depth"
-  end.
+  if negb (mem_str (original (item_id b)) (mentions a)) then cls "C11-renamed"
+  else cls "C11-generic-arg-depth".
 
 (* classification of a recorded edge a -> b (a <> b) that is no reference of a at all.  The
    collectors look names up without regard to what they denote: (1) a generic parameter of a struct
